@@ -16,6 +16,12 @@ Mechanical edits applied to extracted text (and nothing else; all are logged):
   D2 statements that consist solely of a tracing macro invocation
      (debug!/trace!/info!/warn!/debug_span!/.. and `let _x = debug_span!(..)..;`) are dropped
   D3 `pub(super)` / `pub(in ..)` visibility qualifiers become `pub(crate)` (single flat module)
+  D4 (opt-in, `refpat=deref` on a //@FN line; this Verus rejects reference patterns) in the FIRST `match (e1, .., en) {`
+     of the function whose arms use reference patterns `(&P1, .., &Pn)`, every `&` that opens a tuple component of an
+     arm pattern is removed and the scrutinee becomes `(*e1, .., *en)`.  Matching `&P` against a reference is by
+     definition matching `P` against the referent, and rustc only accepts by-value bindings under `&P` for `Copy`
+     data, so the rewritten match selects the same arm and binds the same values; a component WITHOUT `&` is only
+     accepted when it binds nothing (`_`, a unit variant, `V(_)`, `V(..)`), otherwise the unit is UNDECIDED.
   I1 the unit's contract block is inserted between signature and body
   I2 the result type `-> T` is rewritten to `-> (r: T)` so the contract can name it
   I3 loop invariants (`loopinv=` labels) are inserted between a loop header and its body;
@@ -134,6 +140,139 @@ def _drop_tracing(text: str, dropped: list) -> str:
             end += 1
         dropped.append("trace:" + re.sub(r"\s+", " ", text[m.start():semi + 1].strip())[:70])
         text = text[:m.start()] + text[end:]
+
+
+def _split_top(text: str, sep: str):
+    """split at `sep` (one character) outside (), [], {}"""
+    parts, depth, cur = [], 0, []
+    for ch in text:
+        if ch in "([{":
+            depth += 1
+        elif ch in ")]}":
+            depth -= 1
+        if ch == sep and depth == 0:
+            parts.append("".join(cur)); cur = []
+        else:
+            cur.append(ch)
+    parts.append("".join(cur))
+    return parts
+
+
+_NO_BINDING = re.compile(r"^(?:_|[A-Z]\w*(?:::[A-Z]\w*)*(?:\(\s*(?:_|\.\.)(?:\s*,\s*(?:_|\.\.))*\s*\))?)$")
+
+
+def _deref_ref_patterns(text: str, dropped: list) -> str:
+    """D4, see the module docstring."""
+    m = re.search(r"\bmatch\s*\(", text)
+    if not m:
+        raise Unsupported("refpat=deref: no `match (..)` with a tuple scrutinee in the function")
+    i = m.end() - 1
+    j = rsrc.match_close(text, i) if hasattr(rsrc, "match_close") else None
+    if j is None:
+        depth = 0
+        for k in range(i, len(text)):
+            if text[k] == "(":
+                depth += 1
+            elif text[k] == ")":
+                depth -= 1
+                if depth == 0:
+                    j = k
+                    break
+    comps = _split_top(text[i + 1:j], ",")
+    if len(comps) < 2:
+        raise Unsupported("refpat=deref: the scrutinee is not a tuple")
+    scrut = "(" + ", ".join("*" + c.strip() for c in comps) + ")"
+    k = text.index("{", j)
+    depth, end = 0, None
+    for q in range(k, len(text)):
+        if text[q] == "{":
+            depth += 1
+        elif text[q] == "}":
+            depth -= 1
+            if depth == 0:
+                end = q
+                break
+    body = text[k + 1:end]
+    out, pos, n_removed = [], 0, 0
+    while True:
+        # pattern: up to `=>` outside brackets
+        depth, q, arrow = 0, pos, None
+        while q < len(body) - 1:
+            ch = body[q]
+            if ch in "([{":
+                depth += 1
+            elif ch in ")]}":
+                depth -= 1
+            elif depth == 0 and body[q:q + 2] == "=>":
+                arrow = q
+                break
+            q += 1
+        if arrow is None:
+            out.append(body[pos:])
+            break
+        pat = body[pos:arrow]
+        if " if " in pat:
+            raise Unsupported("refpat=deref: match guard in a reference-pattern match")
+        bare = re.sub(r"//[^\n]*", "", pat)
+        for alt in _split_top(bare, "|"):
+            a = alt.strip()
+            if not a:
+                continue
+            if not (a.startswith("(") and a.endswith(")")):
+                if a == "_":
+                    continue
+                raise Unsupported("refpat=deref: arm pattern `%s` is not a tuple pattern" % a[:40])
+            for c in _split_top(a[1:-1], ","):
+                for sub in _split_top(c, "|"):
+                    sub = sub.strip()
+                    if not sub:
+                        continue
+                    if sub.startswith("&"):
+                        if "&" in sub[1:]:
+                            raise Unsupported("refpat=deref: nested reference pattern `%s`" % sub[:40])
+                    elif not _NO_BINDING.match(sub):
+                        raise Unsupported("refpat=deref: component `%s` has no `&` but may bind by reference" % sub[:40])
+        # remove the `&` that opens a tuple component (or an alternative inside one): preceded by `(`, `,` or `|`
+        new_pat, cnt = re.subn(r"(?<=[(,|])(\s*)&(?=\s*[A-Z_a-z])", r"\1", pat)
+        n_removed += cnt
+        out.append(new_pat)
+        # body of the arm
+        q = arrow + 2
+        while body[q].isspace():
+            q += 1
+        if body[q] == "{":
+            depth = 0
+            while True:
+                if body[q] == "{":
+                    depth += 1
+                elif body[q] == "}":
+                    depth -= 1
+                    if depth == 0:
+                        break
+                q += 1
+            q += 1
+            while q < len(body) and body[q] in " \t":
+                q += 1
+            if q < len(body) and body[q] == ",":
+                q += 1
+        else:
+            depth = 0
+            while q < len(body):
+                ch = body[q]
+                if ch in "([{":
+                    depth += 1
+                elif ch in ")]}":
+                    depth -= 1
+                elif ch == "," and depth == 0:
+                    q += 1
+                    break
+                q += 1
+        out.append(body[arrow:q])
+        pos = q
+    if n_removed == 0:
+        raise Unsupported("refpat=deref: the match has no reference patterns any more (template out of date)")
+    dropped.append("D4: %d reference patterns `&P` -> `P`, scrutinee `%s` -> `%s`" % (n_removed, re.sub(r"\s+", " ", text[i:j + 1]), scrut))
+    return text[:i] + scrut + text[j + 1:k + 1] + "".join(out) + text[end:]
 
 
 def _insert_contract(fn_text: str, contract: str, binder: str = "r") -> str:
@@ -369,6 +508,8 @@ def assemble(repo_dir: str, unit: dict, out_path: str):
             text = _drop_docs_and_attrs(text, dropped)
             text = _drop_tracing(text, dropped)
             text = _normalize_vis(text, dropped)
+            if kv.get("refpat") == "deref":
+                text = _deref_ref_patterns(text, dropped)
             if kv.get("vis") == "drop":
                 text = re.sub(r"^(\s*)pub(\([a-z]+\))?\s+", r"\1", text, count=1)
             label = kv["contract"]
